@@ -1,0 +1,10 @@
+//! Anchor for external verification tooling (cargo feature `verif-hooks`).
+//! Nothing here changes behaviour; the harness logic itself lives outside the repository
+//! and is only pulled in when the crate is compiled by the Kani model checker.
+
+#[cfg(kani)]
+mod verif_kani {
+    #[allow(unused_imports)]
+    use crate::*;
+    include!(concat!(env!("ROOC_VERIF_KANI_DIR"), "/in_crate.rs"));
+}
